@@ -1,5 +1,6 @@
 import Std.Data.HashMap
 import Uniseg.Proofs.Closure
+import Uniseg.Proofs.Cut
 /-! # Product exploration: implementation automaton × canonical spec automaton × look-ahead promise
 
 Used (a) to *compute* the reachable product set that `Cert/*.lean` then has the kernel check for
@@ -107,6 +108,57 @@ partial def explore (A : Alg L R Q V) (letters : Array (L × Nat)) (maxReport : 
             nodes := nodes.push n'
     i := i + 1
   return ⟨nodes, transitions, dis, disCount⟩
+
+structure CutResult (R Q : Type) where
+  nodes : Array (Node2 R Q)
+  transitions : Nat
+  bad : Array (List Nat × List Nat)     -- (runes of the prefix, runes of a suffix) where the final condition fails
+  badCount : Nat
+
+/-- the two-run product of the spec automaton (full text vs text cut after a prefix), see `Proofs/Cut` -/
+partial def exploreCut (A : Alg L R Q V) (letters : Array (L × Nat)) (maxReport : Nat := 20) : CutResult R Q := Id.run do
+  let proms := promises A letters
+  let mut idx : Std.HashMap (Node2 R Q) Nat := Std.HashMap.emptyWithCapacity 8192
+  let mut nodes : Array (Node2 R Q) := #[]
+  let mut parent : Array (Nat × Nat) := #[]
+  for (rf, _) in proms do
+    for (rc, _) in proms do
+      let n : Node2 R Q := ⟨A.q0, rf, rc, false⟩
+      if !idx.contains n then
+        idx := idx.insert n nodes.size
+        parent := parent.push (nodes.size, 0)
+        nodes := nodes.push n
+  let mut bad : Array (List Nat × List Nat) := #[]
+  let mut nbad := 0
+  let mut ntrans := 0
+  let mut i := 0
+  while i < nodes.size do
+    let n := nodes[i]!
+    if n.rc == A.rhoEnd && n.d then
+      for (y, ry) in letters do
+        for (rf2, wit) in proms do
+          if A.laStep y rf2 == n.rf && A.isB (A.qout n.q y rf2) then
+            nbad := nbad + 1
+            if bad.size < maxReport then
+              let mut path : List Nat := []
+              let mut j := i
+              while parent[j]!.1 != j do
+                path := parent[j]!.2 :: path
+                j := parent[j]!.1
+              bad := bad.push (path, ry :: wit)
+    for (x, r) in letters do
+      for (rf', _) in proms do
+        if A.laStep x rf' == n.rf then
+          for (rc', _) in proms do
+            if A.laStep x rc' == n.rc then
+              ntrans := ntrans + 1
+              let n' := succ2 A n x rf' rc'
+              if !idx.contains n' then
+                idx := idx.insert n' nodes.size
+                parent := parent.push (i, r)
+                nodes := nodes.push n'
+    i := i + 1
+  return ⟨nodes, ntrans, bad, nbad⟩
 
 def dedupLetters {L : Type} [BEq L] [Hashable L] (f : Nat → L) (runes : List Nat) : Array (L × Nat) := Id.run do
   let mut seen : Std.HashMap L Nat := Std.HashMap.emptyWithCapacity 256
